@@ -71,6 +71,10 @@ OAEP_FAULTS = ["valid", "valid", "genuine", "y-nonzero", "lhash-first", "lhash-l
 def strat_oaep(draw, tier):
     bits = draw(st.sampled_from((BITS if tier == "thorough" else BITS[:5] + [1536]) + BIG_BITS[:1]))
     h = draw(st.sampled_from(OAEP_HASHES))
+    if draw(st.integers(0, 5)) == 0:
+        # the smallest moduli the scheme admits for this hash: k = 2*hLen+2 (only the empty message fits), +1, +2; byte-aligned or not
+        hl = oracles.HASHES[h][1]
+        bits = 8 * (2 * hl + 2 + draw(st.sampled_from([0, 0, 1, 2]))) - draw(st.sampled_from([0, 0, 1, 7]))
     return {"bits": bits, "e": draw(st.sampled_from([0, 0, 1, 2])), "hash": h, "mgf_hash": draw(st.sampled_from([None, None, "SHA1", "SHA256", "SHA512"])),
             "label": draw(st.one_of(st.just(b""), st.binary(max_size=20), gen.data_of(st.sampled_from([64, 100])))),
             "fault": draw(st.sampled_from(OAEP_FAULTS)), "msg_frac": draw(st.integers(0, 1000)), "seed": draw(st.binary(min_size=8, max_size=8)),
@@ -179,6 +183,8 @@ SENTINELS = ["bytes-rand", "bytes-rand", "bytes-empty", "bytes-k", "bytes-k+1", 
 @st.composite
 def strat_v15(draw, tier):
     bits = draw(st.sampled_from((BITS if tier == "thorough" else BITS[:5] + [1536]) + BIG_BITS))
+    if draw(st.integers(0, 9)) == 0:
+        bits = draw(st.sampled_from([88, 89, 96, 104, 128, 255, 256, 257, 512]))      # k = 11 (only the empty message fits), 12, 13, ...
     return {"bits": bits, "e": draw(st.sampled_from([0, 0, 1, 2])), "fault": draw(st.sampled_from(V15_FAULTS)), "msg_frac": draw(st.integers(0, 1000)),
             "seed": draw(st.binary(min_size=8, max_size=8)), "sentinel": draw(st.sampled_from(SENTINELS)),
             "expected": draw(st.sampled_from(["zero", "zero", "true", "other", "other+", "too-big", "+-256", "+-256"])), "pos": draw(st.integers(0, 10 ** 6)),
@@ -204,6 +210,8 @@ def run_v15(case, rec):
         mlen = 0
     if fault in ("ps7", "ps8", "ps9"):
         mlen = k - 3 - int(fault[2:])
+    if mlen < 0:
+        raise Skip()        # this padding length does not exist for so small a modulus
     msg = gen.expand(case["seed"], mlen)
     if fault == "no-zero":
         msg = bytes(b or 1 for b in msg)
